@@ -30,6 +30,7 @@ type Prog struct {
 	litOf       map[*ast.FuncLit]*Func
 	graphs      map[*Func]*Graph
 	rshadow     map[*types.Var]*types.Var // mutex -> its "held in read mode" shadow
+	canonField  map[string]types.Object   // canonical "Type.field" -> representative field object
 	rshadowOf   map[*types.Var]*types.Var // shadow -> mutex
 	parentOf    map[ast.Node]ast.Node
 	Overlay     map[string][]byte
